@@ -31,6 +31,9 @@ def _sym_align(ev_getter):
 def rule_validate(ctx) -> None:
     fn = ctx.own(IMG, "BinaryImage", "validate")
     body = A.body_of(fn.node)
+    bi = ctx.cls(IMG, "BinaryImage")
+    # helper methods of the class (on self, on a child or static) are stepped into on the same model
+    cv = ctx.model_calls(lambda c, e: ordereval.NOT_MODELLED, classes={"BinaryImage": bi})
     cex = None
     n = 0
     offs = range(0, 6)
@@ -39,9 +42,9 @@ def rule_validate(ctx) -> None:
         for off_self in (-1, 0, 2):
             for kids in itertools.chain([()], [(c,) for c in itertools.product(offs, lens)],
                                         itertools.product(itertools.product(offs, lens), repeat=2)):
-                objs = tuple(Obj(offset=o, len=l, name=f"c{i}") for i, (o, l) in enumerate(kids))
-                me = Obj(offset=off_self, len=P, sub_images=objs, name="p", image_name="p")
-                ev = ordereval.Evaluator({"self": me}, None, ignore_calls=("validate",))
+                objs = tuple(Obj(_cls=bi, offset=o, len=l, name=f"c{i}", sub_images=()) for i, (o, l) in enumerate(kids))
+                me = Obj(_cls=bi, offset=off_self, len=P, sub_images=objs, name="p", image_name="p")
+                ev = ordereval.Evaluator({"self": me}, None, ignore_calls=("validate",), call_value=cv)
                 try:
                     out = ev.run(body)
                 except ordereval.Unsupported as e:
@@ -187,48 +190,74 @@ def rule_structure(ctx) -> None:
 def rule_formats(ctx) -> None:
     chk = ctx.chk
     fn = ctx.own(IMG, "BinaryImage", "save_binary_image")
-    body = A.body_of(fn.node)
-    guards = [s for s in body if isinstance(s, ast.If) and A.always_raises(s.body)]
-    fm = None
-    for g in guards:
-        if isinstance(g.test, ast.Compare) and isinstance(g.test.ops[0], ast.NotIn):
-            fm = ctx.prog.fold(g.test.comparators[0], fn.module)
-    chk.decide(fm is not None and set(fm) == {"BIN", "HEX", "S19"}, "C16.formats", fn.qual, "accepts exactly BIN, HEX, S19", f"{fm}", "('BIN', 'HEX', 'S19')", A.loc(IMG, fn.node))
-    disp = {}
-    for s in body:
-        if isinstance(s, ast.If) and isinstance(s.test, ast.Compare) and isinstance(s.test.ops[0], ast.Eq) and isinstance(s.test.comparators[0], ast.Constant):
-            w = [c for c in A.calls_in(s, "write_file")]
-            disp[s.test.comparators[0].value] = norm(w[0].args[0]) if w else None
-    tail = [c for c in A.calls_in(body[-1], "write_file")] if isinstance(body[-1], ast.Expr) else []
-    disp["<else>"] = norm(tail[0].args[0]) if tail else None
-    chk.decide(disp == {"BIN": "self.export()", "HEX": "bin_file.as_ihex()", "<else>": "bin_file.as_srec()"}, "C16.formats.dispatch", fn.qual, f"{disp}", f"{disp}", "BIN->export(), HEX->as_ihex(), S19->as_srec()", A.loc(IMG, fn.node))
-    inner = [n for n in fn.node.body if isinstance(n, ast.FunctionDef) and n.name == "add_into_binary"]
-    if not inner:
-        raise AnalysisError("C16.formats: add_into_binary helper not found")
-    ib = A.body_of(inner[0])
-    p = inner[0].args.args[0].arg
-    shape = []
-    for s in ib:
-        if isinstance(s, ast.If) and not s.orelse:
-            shape.append(("if", norm(s.test)))
-        elif isinstance(s, ast.If):
-            shape.append(("if-else", norm(s.test)))
-        elif isinstance(s, ast.For):
-            shape.append(("for", norm(s.iter)))
-    want = [("if", f"{p}.pattern"), ("if", f"{p}.binary"), ("for", f"{p}.sub_images")]
-    chk.decide(shape == want, "C16.formats.layers", fn.qual + ".add_into_binary", "pattern fill, then own binary, then children - three independent layers (each later one overwrites)",
-               f"{shape}", f"{want}", A.loc(IMG, inner[0]))
-    for c in A.calls_in(inner[0], "add_binary"):
-        addr = A.arg_of(c, 1, "address")
-        ow = A.arg_of(c, None, "overwrite")
-        data = norm(c.args[0]) if c.args else ""
-        ok = addr is not None and norm(addr) == f"{p}.absolute_address" and ow is not None and ctx.prog.fold(ow, fn.module) is True \
-            and data in (f"{p}.binary", f"{p}.pattern.get_block(len({p}))")
-        chk.decide(ok, "C16.formats.address", f"{fn.qual}.add_into_binary `{data[:40]}`", "written at the image's absolute address, overwriting", norm(c)[:120], f"address={p}.absolute_address, overwrite=True", A.loc(IMG, c))
-    rec = [c for c in A.calls_in(inner[0], "add_into_binary")]
-    chk.decide(len(rec) == 1, "C16.formats.layers", fn.qual + ".add_into_binary recursion", "recurses into every sub-image", f"{len(rec)} recursive calls", "1", A.loc(IMG, inner[0]))
-    esa = [s for s in body if isinstance(s, ast.Assign) and norm(s) == "bin_file.execution_start_address = self.execution_start_address"]
-    chk.decide(bool(esa), "C16.formats.start-address", fn.qual, "execution start address is carried into HEX/S19", "", "", A.loc(IMG, fn.node))
+    # save_binary_image evaluated on models of a two-level image tree: the bincopy file is a recorder, write_file a log.
+    # Expected: BIN -> the exported bytes; HEX / S19 -> every image of the tree contributes its pattern fill and then its own binary
+    # at its absolute address with overwrite, parents before children, the execution start address is carried, and the recorder's
+    # ihex / srec rendering is written; any other format (in any letter case) is rejected.
+    def model(pattern: bool, binary: bytes, kids):
+        def mk(name, addr, binary_, pat, subs=()):
+            return Obj(_img=name, absolute_address=addr, binary=binary_, pattern=Obj(_pat=name) if pat else None, sub_images=tuple(subs), len=16, execution_start_address=0x55AA)
+        return mk("root", 0x1000, binary, pattern, [mk(f"k{i}", 0x1000 + o, d, p_) for i, (o, d, p_) in enumerate(kids)])
+    probs, n = [], 0
+    for fmt in ("BIN", "HEX", "S19", "hex", "s19", "bin", "ELF", ""):
+        for pattern in (True, False):
+            for binary in (b"", b"ROOT"):
+                for kids in ((), ((4, b"KID0", False), (8, b"", True))):
+                    me = model(pattern, binary, kids)
+                    log, rec = [], []
+
+                    def cv(c: ast.Call, ev, log=log, rec=rec):
+                        f = norm(c.func)
+                        if f == "bincopy.BinFile" and not c.args:
+                            return Obj(_bf=True, execution_start_address=None)
+                        if isinstance(c.func, ast.Attribute):
+                            try:
+                                o = ev.ev(c.func.value)
+                            except ordereval.Unsupported:
+                                o = None
+                            if isinstance(o, Obj) and "_bf" in o.__dict__:
+                                if c.func.attr == "add_binary":
+                                    rec.append((bytes(ev.ev(c.args[0])), ev.ev(A.arg_of(c, 1, "address")), ev.ev(A.arg_of(c, None, "overwrite")) if A.arg_of(c, None, "overwrite") is not None else False))
+                                    return None
+                                if c.func.attr in ("as_ihex", "as_srec") and not c.args:
+                                    return (c.func.attr, tuple(rec), o.__dict__["execution_start_address"])
+                            if isinstance(o, Obj) and "_pat" in o.__dict__ and c.func.attr == "get_block" and len(c.args) == 1:
+                                return o.__dict__["_pat"].encode() + b"*" + bytes([ev.ev(c.args[0])])
+                            if isinstance(o, Obj) and "_img" in o.__dict__ and c.func.attr == "export" and not c.args:
+                                return b"EXPORT-" + o.__dict__["_img"].encode()
+                        if f == "write_file" and c.args:
+                            log.append((ev.ev(c.args[0]), ev.ev(c.args[1]) if len(c.args) > 1 else ev.ev(A.arg_of(c, 1, "path"))))
+                            return None
+                        return ordereval.NOT_MODELLED
+                    try:
+                        out = ordereval.Evaluator({"self": me, "path": "out.file", "file_format": fmt}, ctx.fold_sym(fn), opaque_return=False, call_value=cv).run(A.body_of(fn.node))
+                    except ordereval.Unsupported as ex:
+                        raise AnalysisError(f"C16.formats: save_binary_image left the fragment: {ex}")
+                    n += 1
+                    F = fmt.upper()
+                    if F not in ("BIN", "HEX", "S19"):
+                        if out.kind != "raise":
+                            probs.append(f"format {fmt!r} is accepted")
+                        continue
+                    if F == "BIN":
+                        want_log = [(b"EXPORT-root", "out.file")]
+                    else:
+                        want_rec = []
+
+                        def walk(o):
+                            if o.__dict__["pattern"] is not None:
+                                want_rec.append((o.__dict__["_img"].encode() + b"*" + bytes([16]), o.__dict__["absolute_address"], True))
+                            if o.__dict__["binary"]:
+                                want_rec.append((o.__dict__["binary"], o.__dict__["absolute_address"], True))
+                            for s_ in o.__dict__["sub_images"]:
+                                walk(s_)
+                        walk(me)
+                        want_log = [(("as_ihex" if F == "HEX" else "as_srec", tuple(want_rec), 0x55AA), "out.file")]
+                    if out.kind == "raise" or log != want_log:
+                        probs.append(f"format {fmt!r}, pattern {pattern}, binary {binary!r}, {len(kids)} children: {'raises' if out.kind == 'raise' else 'writes ' + repr(log)[:160]}, expected {repr(want_log)[:160]}")
+    chk.exhaustive_rules.add("C16.formats")
+    chk.decide(not probs, "C16.formats", fn.qual, f"BIN -> export(); HEX/S19 -> pattern fill then own binary of every image at its absolute address (overwrite, parents first), start address carried, ihex/srec rendering written; other formats rejected ({n} models)",
+               "; ".join(probs[:2]), "", A.loc(IMG, fn.node))
     # load: segments keep their addresses and bytes
     ld = ctx.own(IMG, "BinaryImage", "load_binary_image")
     seg = None
